@@ -5,17 +5,17 @@ NOTE = ("chkpnt()/chkpnt1() of src/echsd.c with the real serialiser of src/evica
         "the invariant 'live queue file = old complete or new complete' is asserted after every system call, i.e. for a "
         "crash at every system-call boundary.")
 ASSUMPTIONS = ["rename(2) is atomic; a crash between system calls leaves what the completed calls left",
-               "vsnprintf body-less (arbitrary byte counts); one fault per checkpoint; <= 2 tasks, one dirty user",
+               "vsnprintf stand-in (arbitrary byte counts 0..24); one fault per checkpoint; <= 2 tasks, one dirty user",
                "the reload half (a daemon started afterwards schedules exactly the tasks of the last checkpoint) needs the text parser on the produced bytes: outside"]
 def ob(name, defs, **kw):
     o = dict(name=name, src='h_chkpnt.c', defs=defs + ['ECHSE_VERIF_FDBUF=128U'], units=['src/evical.c', 'src/task.c'], incl=['src/echsd.c'], replay_units='all', replay_extra_units=['src/logger.c'],
              unwind=6, unwindset={'snprintf.*': 9, 'openat.*': 17, 'fdflush.*': 3, 'memcpy.*': 130, 'strlen.*': 40, 'chkpnt1.*': 6},
              solver='cadical', timeout=1500, mem_gb=24, object_bits=12, checks=['--bounds-check'],
-             allow_nobody=['vsnprintf', 'obint_name', 'echs_log', 'echs_errlog', 'epoch_to_echs_instant', 'dt_strf_ical', 'idiff_strf', 'echs_evstrm_seria'],
+             allow_nobody=['obint_name', 'echs_log', 'echs_errlog', 'epoch_to_echs_instant', 'dt_strf_ical', 'idiff_strf', 'echs_evstrm_seria'],
              enc=['chkpnt', 'chkpnt1', 'echs_icalify_init', 'echs_task_icalify', 'send_task', 'send_ical_hdr', 'send_ical_ftr', 'echs_icalify_fini', 'fdprintf', 'fdwrite', 'fdflush'],
              sym='which system call fails and how, number of tasks, their owners, the dirty user', bounds='<= 2 tasks, fault among the first 12 system calls',
              outside='reload of the written file; chkpnta() (all-users dump after 16 dirty users)',
-             stubs=['file-system stand-in (openat/write/close/renameat/unlinkat) in the harness', 'snprintf stand-in for the file-name format', 'vsnprintf body-less', 'hook ECHSE_VERIF_FDBUF=128 (output buffer of 128 instead of 4096 bytes: more flushes per checkpoint)'])
+             stubs=['file-system stand-in (openat/write/close/renameat/unlinkat) in the harness', 'snprintf stand-in for the file-name format', 'vsnprintf stand-in: arbitrary byte count 0..24 per call, no content', 'hook ECHSE_VERIF_FDBUF=128 (output buffer of 128 instead of 4096 bytes: more flushes per checkpoint)'])
     o.update(kw)
     return o
 OBLIGATIONS = [
